@@ -289,7 +289,8 @@ def write_trace(path, events, drop=("stall",)):
         if e["e"] == "begin":
             b = i
             begins.append(i)
-        e["b"] = b
+        if b is not None:
+            e["b"] = b
     for k, i in enumerate(begins):
         out[i - 1]["nx"] = begins[k + 1] if k + 1 < len(begins) else len(out) + 1
     with open(path, "w") as f:
